@@ -9,11 +9,13 @@ META = {'claimed': True,
                'has the lowest priority value and is first-registered among equals (C05_immediate_order); the timer that runs has the earliest deadline (C05_timer_order); a run starting with an '
                'immediate pending runs a callback and never polls (C05_progress_immediate); the first poll blocks forever only without timers and otherwise for the distance to the earliest deadline '
                "rounded up to a millisecond, never negative nor beyond the clamp (C05_blocking_bound, C05_select_timeout_bound for events_network_select's conversion alone), later polls of a run "
-               'have timeout 0 except the repeat of an EINTR poll (C05_later_polls); a run that returns without invoking anything had nothing runnable (C05_wake_runs); events_run / events_spin '
-               "return the latest callback's result and after a non-zero result or an interrupt no further callback starts (C05_status_returned, C05_stops_dispatch); every live id is still "
-               "registered in the final state (C05_pending_stay_registered). 13 theorems, unbounded. Hypothesis beyond C04's: clock readings non-decreasing (monotonic clock). For events_spin the "
-               'progress/timeout clauses are stated for events_run only. Bound to the C by the same correspondence run as C04 (implementation trace = model trace; the extracted check_c04 and '
-               "check_c05 evaluated on the IMPLEMENTATION's trace, poll timeout argument observed by interposition).",
+               'have timeout 0 except the repeat of an EINTR poll (C05_later_polls); a run that returns without invoking anything had nothing runnable (C05_wake_runs: SOME callback runs - the '
+               "reported descriptor or expired timer itself may stay un-run when another callback returned non-zero first); events_run / events_spin return the latest callback's result, and after a "
+               'callback returns non-zero, or returns while an interrupt request is pending, no further callback starts in that call (C05_status_returned, C05_stops_dispatch; an interrupt delivered '
+               "by a signal during the zero-timeout re-poll still allows the one timer callback that follows, in the C and in the model alike); every live id is still registered in the model's final "
+               "state (C05_pending_stay_registered; a statement about the model's state, not trace-observable). 13 theorems, unbounded. Hypothesis beyond C04's: clock readings non-decreasing "
+               '(monotonic clock). For events_spin the progress/timeout clauses are stated for events_run only. Bound to the C by the same correspondence run as C04 (implementation trace = model '
+               "trace; the extracted check_c04 and check_c05 evaluated on the IMPLEMENTATION's trace, poll timeout argument observed by interposition).",
  'level_note': 'Trusted: Coq kernel; hand-written Gallina model of events*.c bound by differential execution (ASan/UBSan, interposed poll/clock_gettime); in the model an EINTR poll stores revents = '
                '0 and an exhausted poll script is EINTR with interrupt; normalised timevals, fd < 2^31, non-decreasing clock. Repaired defect F10 (clamp) has its regression in the select-timeout '
                'theorem. Print Assumptions: closed under the global context.',
